@@ -39,6 +39,7 @@ theorem gframe_same {s s' : State} (hp : s'.pools = s.pools) (hs : s'.seq = s.se
   ⟨by rw [hp], hs, hq, fun id p p' h1 h2 => by unfold getPool at h1 h2; rw [hp, h1] at h2; cases h2; rfl⟩
 
 theorem _root_.Irismod.Proofs.Farm.BankOnly.gframe {s s' : State} (b : BankOnly s s') : GFrame s s' := gframe_same b.pools b.seq b.params
+theorem _root_.Irismod.Proofs.Farm.Quiet.gframe {s s' : State} (b : Quiet s s') : GFrame s s' := gframe_same b.pools b.seq b.params
 
 theorem gframe_set {s s' : State} {id : PoolId} {p q : Pool} (hp : getPool s id = some p)
     (hpools : s'.pools = AMap.set s.pools id q) (hd : q.desc = p.desc) (hs : s'.seq = s.seq) (hq : s'.params = s.params) :
@@ -74,7 +75,7 @@ theorem refund_gframe {s : State} {id : PoolId} {p : Pool} (hp : getPool s id = 
     rcases hr with ⟨_, hr⟩ | ⟨_, e, _, hr⟩ | ⟨_, s2, hs, hr⟩
     · rw [hr]; exact (f0.trans f1).trans f2
     · rw [hr]; exact (f0.trans f1).trans f2
-    · rw [hr]; exact ((f0.trans f1).trans f2).trans (sendAll_ok hs).1.gframe
+    · rw [hr]; exact (((f0.trans f1).trans f2).trans (sendAll_ok hs).1.gframe).trans (withCp_quiet _ _).gframe
 
 theorem endBlockOne_gframe {s s' : State} {id : PoolId} (h : endBlockOne s id = .ok s') : GFrame s s' := by
   unfold endBlockOne at h
@@ -254,49 +255,73 @@ theorem genWF_unstake {s s' : State} {sender id denom amt} (hi : Inv s) (hg : Ge
     · show AMap.set s3.farmers _ _ = _; rw [b3.farmers, b2.farmers, hfm]
     · show 0 < f.locked - amt; omega
 
-theorem genWF_createPool {s s' : State} {sender desc lpt start rpb total editable} (hg : GenWF s)
-    (h : stepCreatePool s (poolIdOf (s.seq + 1)) sender desc lpt start rpb total editable = .ok s') : GenWF s' := by
-  have hfr := createPool_frame h
-  have hdesc : desc.utf8ByteSize ≤ 280 := by
-    unfold stepCreatePool at h
-    split at h; · cases h
-    split at h; · cases h
-    rename_i hd; omega
-  obtain ⟨s1, s2, m, _, _, _, _, _, h1, h2, hnone, _, rfl⟩ := stepCreatePool_ok h
-  have b12 : BankOnly s s2 := (deductFee_ok h1).trans (sendAll_ok h2).1
-  have hnk : poolIdOf (s.seq + 1) ∉ AMap.keys s2.pools := (get?_eq_none_iff _ _).mp hnone
-  have hpools : ∀ (q : Pool) (hh : Int), (enqueue { s2 with seq := s2.seq + 1, pools := AMap.set s2.pools (poolIdOf (s.seq + 1)) q } (poolIdOf (s.seq + 1)) hh).pools
-      = AMap.set s2.pools (poolIdOf (s.seq + 1)) q := by
+theorem genWF_createCore {s2 s' : State} {creator desc lpt start rpb total editable} (hg : GenWF s2)
+    (hdesc : desc.utf8ByteSize ≤ 280)
+    (h : createPoolCore s2 (poolIdOf (s2.seq + 1)) creator desc lpt start rpb total editable = .ok s') : GenWF s' := by
+  have hfr := createCore_frame h
+  obtain ⟨m, hnone, _, rfl⟩ := createPoolCore_ok h
+  have hnk : poolIdOf (s2.seq + 1) ∉ AMap.keys s2.pools := (get?_eq_none_iff _ _).mp hnone
+  have hpools : ∀ (q : Pool) (hh : Int), (enqueue { s2 with seq := s2.seq + 1, pools := AMap.set s2.pools (poolIdOf (s2.seq + 1)) q } (poolIdOf (s2.seq + 1)) hh).pools
+      = AMap.set s2.pools (poolIdOf (s2.seq + 1)) q := by
     intro q hh; unfold enqueue; split <;> rfl
-  have hseq : ∀ (q : Pool) (hh : Int), (enqueue { s2 with seq := s2.seq + 1, pools := AMap.set s2.pools (poolIdOf (s.seq + 1)) q } (poolIdOf (s.seq + 1)) hh).seq
-      = s.seq + 1 := by
-    intro q hh; unfold enqueue; split <;> (show s2.seq + 1 = _; rw [b12.seq])
-  have hpar : ∀ (q : Pool) (hh : Int), (enqueue { s2 with seq := s2.seq + 1, pools := AMap.set s2.pools (poolIdOf (s.seq + 1)) q } (poolIdOf (s.seq + 1)) hh).params
-      = s.params := by
-    intro q hh; unfold enqueue; split <;> (show s2.params = _; rw [b12.params])
+  have hseq : ∀ (q : Pool) (hh : Int), (enqueue { s2 with seq := s2.seq + 1, pools := AMap.set s2.pools (poolIdOf (s2.seq + 1)) q } (poolIdOf (s2.seq + 1)) hh).seq
+      = s2.seq + 1 := by
+    intro q hh; unfold enqueue; split <;> rfl
+  have hpar : ∀ (q : Pool) (hh : Int), (enqueue { s2 with seq := s2.seq + 1, pools := AMap.set s2.pools (poolIdOf (s2.seq + 1)) q } (poolIdOf (s2.seq + 1)) hh).params
+      = s2.params := by
+    intro q hh; unfold enqueue; split <;> rfl
   refine ⟨?_, ?_, ?_, ?_, ?_, by rw [hpar]; exact hg.params⟩
   · unfold GenesisList.NodupKeys
-    rw [hpools, keys_set_of_not_mem _ _ _ hnk, b12.pools]
-    rw [b12.pools] at hnk
+    rw [hpools, keys_set_of_not_mem _ _ _ hnk]
     exact List.nodup_append.mpr ⟨hg.poolKeys, by simp, by intro a ha b hb; simp at hb; subst hb; intro e; subst e; exact hnk ha⟩
   · intro id hid
-    rw [hpools, keys_set_of_not_mem _ _ _ hnk, b12.pools, List.mem_append] at hid
+    rw [hpools, keys_set_of_not_mem _ _ _ hnk, List.mem_append] at hid
     rw [hseq]
     rcases hid with hid | hid
     · obtain ⟨n, e, h0, hle⟩ := hg.ids id hid
       exact ⟨n, e, h0, by omega⟩
     · simp only [List.mem_singleton] at hid
-      exact ⟨s.seq + 1, hid, by omega, Nat.le_refl _⟩
+      exact ⟨s2.seq + 1, hid, by omega, Nat.le_refl _⟩
   · intro id p hp
-    by_cases e : poolIdOf (s.seq + 1) = id
+    by_cases e : poolIdOf (s2.seq + 1) = id
     · subst e
       rw [getPool_set_self _ _ _ _ (hpools _ _)] at hp; cases hp
       exact hdesc
     · rw [getPool_set_other s2 _ _ id _ (hpools _ _) e] at hp
-      unfold getPool at hp; rw [b12.pools] at hp
       exact hg.desc id p hp
   · intro a id f hf; unfold getFarmer at hf; rw [hfr.farmers] at hf; exact hg.flock a id f hf
   · intro a id f hf; unfold getFarmer at hf; rw [hfr.farmers] at hf; exact hg.fdebt a id f hf
+
+theorem genWF_createPool {s s' : State} {sender desc lpt start rpb total editable} (hg : GenWF s)
+    (h : stepCreatePool s (poolIdOf (s.seq + 1)) sender desc lpt start rpb total editable = .ok s') : GenWF s' := by
+  unfold stepCreatePool at h
+  split at h; · cases h
+  split at h; · cases h
+  rename_i hd
+  split at h; · cases h
+  split at h; · cases h
+  split at h; · cases h
+  split at h; · cases h
+  split at h; · cases h
+  split at h; · cases h
+  split at h; · cases h
+  rename_i s1 h1
+  split at h; · cases h
+  rename_i s2 h2
+  have b12 : BankOnly s s2 := (deductFee_ok h1).trans (sendAll_ok h2).1
+  rw [← b12.seq] at h
+  exact genWF_createCore (genWF_gframe b12.gframe b12.farmers hg) (by omega) h
+
+/-- a community-pool operation keeps the genesis well-formedness; the pool a passed proposal
+creates carries the (length-checked) pool description of the proposal -/
+theorem genWF_qEffect {s s' : State} (hg : GenWF s) (h : QEffect s s') : GenWF s' := by
+  cases h with
+  | frame f => exact genWF_gframe f.gframe f.farmers hg
+  | created sa s2 c f1 hr f2 =>
+    obtain ⟨hdesc, _, _, s1, h1, h2⟩ := hr
+    have b1 := (sendAll_ok h1).1
+    have g1 := genWF_gframe b1.gframe b1.farmers (genWF_gframe f1.gframe f1.farmers hg)
+    exact genWF_gframe f2.gframe f2.farmers (genWF_createCore g1 hdesc h2)
 
 theorem genWF_destroyPool {s s' : State} {sender id} (hg : GenWF s) (h : stepDestroyPool s sender id = .ok s') : GenWF s' := by
   have hfr := destroyPool_frame h
@@ -325,12 +350,18 @@ theorem genWF_stepMsg {s s' : State} {op : Op} (hi : Inv s) (hg : GenWF s) (h : 
   | unstake sender id denom amt => exact genWF_unstake hi hg h
   | harvest sender id => exact genWF_harvest hi hg h
   | endBlocks n => simp [stepMsg] at h; subst h; exact hg
+  | cpPass pid => simp [stepMsg] at h; subst h; exact hg
+  | cpReject pid => simp [stepMsg] at h; subst h; exact hg
+  | cpFailDeposit pid => simp [stepMsg] at h; subst h; exact hg
+  | cpSubmit proposer title c deposit => exact genWF_gframe (cpSubmit_quiet h).gframe (cpSubmit_quiet h).farmers hg
+  | fundCp sender amt => exact genWF_gframe (fundCp_quiet h).gframe (fundCp_quiet h).farmers hg
 
 theorem genWF_apply (s : State) (op : Op) (hi : Inv s) (hg : GenWF s) : GenWF (apply s op) := by
-  rcases apply_cases s op with ⟨n, _, h⟩ | h | ⟨h, _, _⟩
+  rcases apply_cases s op with ⟨n, _, h⟩ | h | ⟨h, _, _⟩ | h
   · rw [h]; exact genWF_gframe (endBlocks_gframe n s) (endBlocks_frame n s).farmers hg
   · rw [h]; exact hg
   · exact genWF_stepMsg hi hg h
+  · exact genWF_qEffect hg (govStep_q h)
 
 theorem genWF_run : ∀ (ops : List Op) (s : State), Inv s → GenWF s → GenWF (run s ops)
   | [], _, _, hg => hg
